@@ -22,6 +22,7 @@ structure UnknownRuleOk (M : List Cps) (toks : List Tok) : Prop where
 structure AtFaithful (O : Oracle) : Prop where
   page : ∀ im ts, O.atOk .pageSym im ts = true
   fontface : ∀ im ts, O.atOk .fontFaceSym im ts = true
+  variables : ∀ im ts, O.atOk .variablesSym im ts = true
   import_ : ∀ ts, O.atOk .importSym false ts = (importRule O ts).isSome
   ns : ∀ ts, O.nsInfo ts = nsRule ts
 
@@ -31,7 +32,7 @@ def SRule.parsed (O : Oracle) (ns : List (Cps × Cps)) : SRule → Rule
   | .comment b => .comment (commentTok b)
   | .style sel blk => .style ns sel.toks (parseDecls O blk.toks)
   | .unknown t => .unknown t
-  | .media _ g1 mq g2 _ rules => .media (some (mediaHead g1 mq g2, none)) (rules.parsed O ns)
+  | .media _ g1 mq g2 name _ rules => .media (some (mediaHead g1 mq g2, nameTok? name)) (rules.parsed O ns)
   | .fontface kw g1 blk => .at_ .fontface (SRule.fontface kw g1 blk).toks
   | .page kw g0 sel g1 blk => .at_ .page (SRule.page kw g0 sel g1 blk).toks
 def SRules.parsed (O : Oracle) (ns : List (Cps × Cps)) : SRules → List Rule
@@ -45,7 +46,8 @@ def SRule.WF (O : Oracle) (M : List Cps) (ns : List (Cps × Cps)) (im : Bool) : 
   | .comment _ => True
   | .style sel blk => StyleWF O ns sel blk
   | .unknown t => UnknownRuleOk M t
-  | .media _ g1 mq g2 _ rules => MqOk mq ∧ O.mediaOk (mediaHead g1 mq g2) = true ∧ rules.WF O M ns true
+  | .media _ g1 mq g2 name _ rules =>
+    MqOk mq ∧ O.mediaOk (mediaHead g1 mq g2) = true ∧ rules.WF O M ns true ∧ NameWF name
   | .fontface _ _ blk => im = false ∧ blk.WF O
   | .page _ _ sel _ blk => PageWF O M sel blk
 def SRules.WF (O : Oracle) (M : List Cps) (ns : List (Cps × Cps)) (im : Bool) : SRules → Prop
@@ -84,13 +86,13 @@ theorem SRule.bal (O : Oracle) (M : List Cps) (ns : List (Cps × Cps)) (im : Boo
   | .unknown t, h => by
     have h : UnknownRuleOk M t := h
     exact ⟨h.bal, h.noeof⟩
-  | .media kw g1 mq g2 lead rules, h => by
-    have h : MqOk mq ∧ O.mediaOk (mediaHead g1 mq g2) = true ∧ rules.WF O M ns true := h
-    obtain ⟨i1, i2⟩ := SRules.bal O M ns true rules h.2.2
+  | .media kw g1 mq g2 name lead rules, h => by
+    have h : MqOk mq ∧ O.mediaOk (mediaHead g1 mq g2) = true ∧ rules.WF O M ns true ∧ NameWF name := h
+    obtain ⟨i1, i2⟩ := SRules.bal O M ns true rules h.2.2.1
     obtain ⟨w1, w2⟩ := wgap_bal lead
     obtain ⟨hq, _, _⟩ := mediaHead_facts g1 mq g2 h.1
-    have := bal_blockStmt (atTok .mediaSym kw "media") (mediaHead g1 mq g2) (WGap.toks lead ++ rules.toks)
-      (atTok_default_flat _ _ _ (by decide) (by decide) (by decide)) hq (bal_append w1 i1)
+    have := bal_blockStmt (atTok .mediaSym kw "media") (mediaHead g1 mq g2 ++ nameToks name) (WGap.toks lead ++ rules.toks)
+      (atTok_default_flat _ _ _ (by decide) (by decide) (by decide)) (hq.append (nameToks_qb .default rfl name)) (bal_append w1 i1)
       (by rw [noEof_append, w2, i2]; rfl)
     simpa [SRule.toks, mediaHead] using this
   | .fontface kw g1 blk, h => by
@@ -180,19 +182,19 @@ theorem mediaLoop_rule (O : Oracle) (M : List Cps) (hO : AtFaithful O) (ns : Lis
     rw [show (SRule.unknown (t :: rest)).toks = t :: rest from by simp [SRule.toks],
       mediaLoop_shape O ns _ acc t rest x hs (by simp [ht]) (by simp [ht])]
     simp [mediaStmtEffect, ht, hf', hp, hm, hok, mediaInsert, SRule.parsed]
-  | .media kw g1 mq g2 lead rules, h, f, acc, x, hf => by
-    have h : MqOk mq ∧ O.mediaOk (mediaHead g1 mq g2) = true ∧ rules.WF O M ns true := h
-    obtain ⟨i1, i2⟩ := SRules.bal O M ns true rules h.2.2
+  | .media kw g1 mq g2 name lead rules, h, f, acc, x, hf => by
+    have h : MqOk mq ∧ O.mediaOk (mediaHead g1 mq g2) = true ∧ rules.WF O M ns true ∧ NameWF name := h
+    obtain ⟨i1, i2⟩ := SRules.bal O M ns true rules h.2.2.1
     obtain ⟨w1, w2⟩ := wgap_bal lead
     obtain ⟨hq, hnb, hns⟩ := mediaHead_facts g1 mq g2 h.1
     have hinner : nest [] (WGap.toks lead ++ rules.toks) = some [] := bal_append w1 i1
     have hinnerE : noEof (WGap.toks lead ++ rules.toks) = true := by rw [noEof_append, w2, i2]; rfl
-    have e : (SRule.media kw g1 mq g2 lead rules).toks =
-        atTok .mediaSym kw "media" :: (mediaHead g1 mq g2 ++ lbraceTok :: ((WGap.toks lead ++ rules.toks) ++ [rbraceTok])) := by
+    have e : (SRule.media kw g1 mq g2 name lead rules).toks =
+        atTok .mediaSym kw "media" :: ((mediaHead g1 mq g2 ++ nameToks name) ++ lbraceTok :: ((WGap.toks lead ++ rules.toks) ++ [rbraceTok])) := by
       simp [SRule.toks, mediaHead]
     have hflat := atTok_default_flat .mediaSym kw "media" (by decide) (by decide) (by decide)
-    have hs := stmtShape_block (atTok .mediaSym kw "media") (mediaHead g1 mq g2) (WGap.toks lead ++ rules.toks)
-      hflat hq hinner hinnerE
+    have hs := stmtShape_block (atTok .mediaSym kw "media") (mediaHead g1 mq g2 ++ nameToks name) (WGap.toks lead ++ rules.toks)
+      hflat (hq.append (nameToks_qb .default rfl name)) hinner hinnerE
     obtain ⟨m1, m2, m3⟩ := atMedia_facts kw
     cases f with
     | zero => omega
@@ -201,10 +203,10 @@ theorem mediaLoop_rule (O : Oracle) (M : List Cps) (hO : AtFaithful O) (ns : Lis
         rw [e] at hf
         simp only [List.length_cons, List.length_append] at hf
         omega
-      have hbody := mediaLoop_rules O M hO ns rules h.2.2 f' [] [] hlen
-      have hnested : mediaRule O ns (f' + 1) (SRule.media kw g1 mq g2 lead rules).toks =
-          some ((SRule.media kw g1 mq g2 lead rules).parsed O ns) := by
-        rw [e, mediaRule_eval O ns f' _ _ _ rfl hq hnb hns h.2.1 hinner hinnerE, mediaLoop_ws]
+      have hbody := mediaLoop_rules O M hO ns rules h.2.2.1 f' [] [] hlen
+      have hnested : mediaRule O ns (f' + 1) (SRule.media kw g1 mq g2 name lead rules).toks =
+          some ((SRule.media kw g1 mq g2 name lead rules).parsed O ns) := by
+        rw [e, mediaRule_eval' O ns f' _ _ _ name rfl hq hnb hns h.2.1 hinner hinnerE, mediaLoop_ws]
         simp only [List.append_nil, List.nil_append] at hbody
         rw [hbody, parseLoop_nil]
         simp [SRule.parsed]
@@ -248,19 +250,19 @@ end
 
 /-- `CSSMediaRule.cssText = tokens` on a rendered `@media` rule, with any amount of fuel above its length -/
 theorem mediaRule_render (O : Oracle) (M : List Cps) (hO : AtFaithful O) (ns : List (Cps × Cps)) (kw : Mask) (g1 : Gap)
-    (mq : List Tok) (g2 : Gap) (lead : WGap) (rules : SRules) (im : Bool)
-    (h : (SRule.media kw g1 mq g2 lead rules).WF O M ns im) (f : Nat)
-    (hf : (SRule.media kw g1 mq g2 lead rules).toks.length < f) :
-    mediaRule O ns f (SRule.media kw g1 mq g2 lead rules).toks =
-      some ((SRule.media kw g1 mq g2 lead rules).parsed O ns) := by
-  have h : MqOk mq ∧ O.mediaOk (mediaHead g1 mq g2) = true ∧ rules.WF O M ns true := h
-  obtain ⟨i1, i2⟩ := SRules.bal O M ns true rules h.2.2
+    (mq : List Tok) (g2 : Gap) (name : SName) (lead : WGap) (rules : SRules) (im : Bool)
+    (h : (SRule.media kw g1 mq g2 name lead rules).WF O M ns im) (f : Nat)
+    (hf : (SRule.media kw g1 mq g2 name lead rules).toks.length < f) :
+    mediaRule O ns f (SRule.media kw g1 mq g2 name lead rules).toks =
+      some ((SRule.media kw g1 mq g2 name lead rules).parsed O ns) := by
+  have h : MqOk mq ∧ O.mediaOk (mediaHead g1 mq g2) = true ∧ rules.WF O M ns true ∧ NameWF name := h
+  obtain ⟨i1, i2⟩ := SRules.bal O M ns true rules h.2.2.1
   obtain ⟨w1, w2⟩ := wgap_bal lead
   obtain ⟨hq, hnb, hns⟩ := mediaHead_facts g1 mq g2 h.1
   have hinner : nest [] (WGap.toks lead ++ rules.toks) = some [] := bal_append w1 i1
   have hinnerE : noEof (WGap.toks lead ++ rules.toks) = true := by rw [noEof_append, w2, i2]; rfl
-  have e : (SRule.media kw g1 mq g2 lead rules).toks =
-      atTok .mediaSym kw "media" :: (mediaHead g1 mq g2 ++ lbraceTok :: ((WGap.toks lead ++ rules.toks) ++ [rbraceTok])) := by
+  have e : (SRule.media kw g1 mq g2 name lead rules).toks =
+      atTok .mediaSym kw "media" :: ((mediaHead g1 mq g2 ++ nameToks name) ++ lbraceTok :: ((WGap.toks lead ++ rules.toks) ++ [rbraceTok])) := by
     simp [SRule.toks, mediaHead]
   cases f with
   | zero => omega
@@ -269,8 +271,8 @@ theorem mediaRule_render (O : Oracle) (M : List Cps) (hO : AtFaithful O) (ns : L
       rw [e] at hf
       simp only [List.length_cons, List.length_append] at hf
       omega
-    have hbody := mediaLoop_rules O M hO ns rules h.2.2 f' [] [] hlen
-    rw [e, mediaRule_eval O ns f' _ _ _ rfl hq hnb hns h.2.1 hinner hinnerE, mediaLoop_ws]
+    have hbody := mediaLoop_rules O M hO ns rules h.2.2.1 f' [] [] hlen
+    rw [e, mediaRule_eval' O ns f' _ _ _ name rfl hq hnb hns h.2.1 hinner hinnerE, mediaLoop_ws]
     simp only [List.append_nil, List.nil_append] at hbody
     rw [hbody, parseLoop_nil]
     simp [SRule.parsed]
@@ -339,18 +341,18 @@ theorem sheetLoop_srule (O : Oracle) (M : List Cps) (hO : AtFaithful O) (r : SRu
     refine ⟨_, by simpa [SRule.toks] using sheetLoop_unknown O M toks x st h, ?_, ?_⟩
     · simp [SRule.parsed]
     · simp
-  | media kw g1 mq g2 lead rules =>
-    have hr := mediaRule_render O M hO st.nsmap kw g1 mq g2 lead rules false h
-      ((SRule.media kw g1 mq g2 lead rules).toks.length + 1) (by omega)
-    have h : MqOk mq ∧ O.mediaOk (mediaHead g1 mq g2) = true ∧ rules.WF O M st.nsmap true := h
-    obtain ⟨i1, i2⟩ := SRules.bal O M st.nsmap true rules h.2.2
+  | media kw g1 mq g2 name lead rules =>
+    have hr := mediaRule_render O M hO st.nsmap kw g1 mq g2 name lead rules false h
+      ((SRule.media kw g1 mq g2 name lead rules).toks.length + 1) (by omega)
+    have h : MqOk mq ∧ O.mediaOk (mediaHead g1 mq g2) = true ∧ rules.WF O M st.nsmap true ∧ NameWF name := h
+    obtain ⟨i1, i2⟩ := SRules.bal O M st.nsmap true rules h.2.2.1
     obtain ⟨w1, w2⟩ := wgap_bal lead
     obtain ⟨hq, hnb, hns⟩ := mediaHead_facts g1 mq g2 h.1
-    have e : (SRule.media kw g1 mq g2 lead rules).toks =
-        atTok .mediaSym kw "media" :: (mediaHead g1 mq g2 ++ lbraceTok :: ((WGap.toks lead ++ rules.toks) ++ [rbraceTok])) := by
+    have e : (SRule.media kw g1 mq g2 name lead rules).toks =
+        atTok .mediaSym kw "media" :: ((mediaHead g1 mq g2 ++ nameToks name) ++ lbraceTok :: ((WGap.toks lead ++ rules.toks) ++ [rbraceTok])) := by
       simp [SRule.toks, mediaHead]
-    have hs := stmtShape_block (atTok .mediaSym kw "media") (mediaHead g1 mq g2) (WGap.toks lead ++ rules.toks)
-      (atTok_default_flat _ _ _ (by decide) (by decide) (by decide)) hq (bal_append w1 i1)
+    have hs := stmtShape_block (atTok .mediaSym kw "media") (mediaHead g1 mq g2 ++ nameToks name) (WGap.toks lead ++ rules.toks)
+      (atTok_default_flat _ _ _ (by decide) (by decide) (by decide)) (hq.append (nameToks_qb .default rfl name)) (bal_append w1 i1)
       (by rw [noEof_append, w2, i2]; rfl)
     rw [e, sheetLoop_shape O M st _ _ x hs (by simp [atTok]) (by simp [atTok]) (by simp [atTok])
       (by simp [atTok]), ← e]
@@ -423,10 +425,10 @@ theorem projRule_parsed (O : Oracle) (M : List Cps) (ns : List (Cps × Cps)) (im
     simp only [SRule.parsed, projRule, SRule.erase, projItems]
     rw [selGroups_render sel h.selWF, parseDecls_block O blk h.blkWF]
   | .unknown t, _ => by simp [SRule.parsed, projRule, SRule.erase]
-  | .media kw g1 mq g2 lead rules, h => by
-    have h : MqOk mq ∧ O.mediaOk (mediaHead g1 mq g2) = true ∧ rules.WF O M ns true := h
-    simp only [SRule.parsed, projRule, SRule.erase, Option.map_none]
-    rw [projRules_parsed O M ns true rules h.2.2]
+  | .media kw g1 mq g2 name lead rules, h => by
+    have h : MqOk mq ∧ O.mediaOk (mediaHead g1 mq g2) = true ∧ rules.WF O M ns true ∧ NameWF name := h
+    simp only [SRule.parsed, projRule, SRule.erase]
+    rw [projRules_parsed O M ns true rules h.2.2.1, nameTok?_value name h.2.2.2]
     simp only [mediaHead]
     rw [clean_padded _ _ _ (gapL_toks _).isGap (gapL_toks _).isGap h.1.core]
   | .fontface kw g1 blk, h => by
